@@ -1947,6 +1947,43 @@ def mixin_api(rng, name, mixins, rules_mode, own_iam=None, add_iam=False, transp
     return api
 
 
+def twin_module_api(rng, name):
+    """Two proto-plus modules of one base name (a root file and a file of a sub-package, both defining a message of the same
+    name) used by one service, the references interleaved with references to a third module (C03)."""
+    api = Api(name)
+    ver = "v1"
+    pkg = f"vp.{name}.{ver}"
+    P = "." + pkg
+    dirp = f"vp/{name}/{ver}"
+    base = rng.choice(["common", "shared", "items"])
+    fr = File(f"{dirp}/{base}.proto", pkg, deps=[])
+    it = fr.message("Item")
+    it.field("name", "string")
+    it.field("count", "int32")
+    fsub = File(f"{dirp}/sub/{base}.proto", pkg + ".sub", deps=[])
+    its = fsub.message("Item")
+    its.field("unit", "string")
+    its.field("count", "int32")
+    its.field("weight", "double")
+    f = File(f"{dirp}/{name}.proto", pkg, deps=list(STD_DEPS) + [fr.pb.name, fsub.pb.name])
+    for x in (fr, fsub, f):
+        api.add(x)
+    ack = f.message("Ack")
+    ack.field("ok", "bool")
+    ack.field("note", "string")
+    s = f.service("Catalog", host=f"{name}.googleapis.com")
+    rpcs = [("Stock", P + ".sub.Item", P + ".Ack", {}), ("Order", P + ".Item", P + ".Ack", {}), ("Lookup", P + ".Ack", P + ".sub.Item", {}),
+            ("Find", P + ".Ack", P + ".Item", {}), ("Watch", P + ".Ack", P + ".sub.Item", {"ss": True}), ("Feed", P + ".sub.Item", P + ".Ack", {"cs": True})]
+    if rng.random() < 0.5:
+        rpcs.insert(0, ("Weigh", P + ".Item", P + ".sub.Item", {}))      # adjacent references as well
+    for nm, i_, o_, kw in rpcs:
+        s.rpc(nm, i_, o_, **kw)
+    api.options = ["transport=grpc", "autogen-snippets=false"]
+    api.info.update(pkg=pkg, version=ver, ns=["vp"], name=name, host=f"{name}.googleapis.com")
+    api.tags.add("twin-proto-plus-modules")
+    return api
+
+
 def extop_api(rng, name):
     """Compute-style extended operations (google.cloud.extended_operations): initiating RPCs name a polling service (C16)."""
     from google.cloud import extended_operations_pb2 as xo
